@@ -39,6 +39,8 @@ type SnapOpts struct {
 	NoData  bool
 	Budget  int
 	DirSize bool
+	// NoOwner leaves uid and gid out (file systems that advertise no identity manager).
+	NoOwner bool
 	// Tops: when the root itself cannot be observed (OrefaFS cannot Lstat or list "/"),
 	// the walk starts at root+name for each of these names that exists.
 	Tops []string
@@ -89,6 +91,10 @@ func Snapshot(vfs avfs.VFS, root string, o SnapOpts) *Snap {
 
 			st := vfs.ToSysStat(info)
 			n.Uid, n.Gid, n.Nlink = st.Uid(), st.Gid(), st.Nlink()
+
+			if o.NoOwner {
+				n.Uid, n.Gid = 0, 0
+			}
 		}()
 
 		if o.Mtime {
